@@ -37,6 +37,7 @@ struct Registry {  // harness-side monitor; every access inside sim::Untracked
     int running = 0;
 };
 Registry* R = nullptr;
+std::string g_prop;
 std::map<std::string, uint64_t> g_extra;
 
 void task_begin(int id) {
@@ -151,6 +152,7 @@ void after_stop(Ctx& c, int64_t stop_call_seq, const char* where) {
     if (n != 0) sim::violation("threads-after-stop", std::string(where) + ": getThreadCount()=" + std::to_string(n) + " after stop() returned");
     sim::Untracked u;
     if (R->running != 0) sim::violation("task-running-after-stop", std::string(where) + ": a task is still between begin and end after stop() returned");
+    if (g_prop == "C07") return;  // C07 judges destruction at the very end (task-leaked), whatever stop() chooses to do when
     for (size_t i = 0; i < R->tasks.size(); i++) {
         auto& t = R->tasks[i];
         if (t.submit >= stop_call_seq) continue;
@@ -334,8 +336,8 @@ bool owns(const std::string& prop, const std::string& c) {
                                               "task-began-after-stop", "order-violated", "pool-deadlock", "terminate"};
     static const std::set<std::string> c08 = {"stop-hang", "threads-after-stop", "task-running-after-stop", "task-not-destroyed-by-stop", "restart-failed", "too-many-threads",
                                               "pool-deadlock", "terminate"};
-    if (prop == "C07") return c07.count(c) > 0;
-    if (prop == "C08") return c08.count(c) > 0;
+    if (prop == "C07") return c07.count(c) > 0 || c.rfind("asan:", 0) == 0;
+    if (prop == "C08") return c08.count(c) > 0 || c.rfind("asan:", 0) == 0;
     if (prop == "C15") return c.rfind("tsan:", 0) == 0;
     return false;
 }
@@ -372,7 +374,7 @@ void generate(sim::Rng& g, const std::string& prop, const std::string& tier, Jso
 }
 
 void execute(const Json& program, const sim::Config& cfg, const std::string& prop) {
-    (void)prop;
+    g_prop = prop;
     sim::set_deadlock_classifier([&](const std::vector<sim::ThreadInfo>& ti) -> std::string {
         int tag = ti.empty() ? 0 : ti[0].tag;
         if (tag == TAG_STOP) return "stop-hang";
